@@ -29,6 +29,7 @@ func (f *Frame) call(in ssa.CallInstruction, res *ssa.Call) {
 			for _, ca := range f.spec.CallAsserts {
 				if (ca.Callee == name || ca.Callee == short) && ca.N == n {
 					mine = append(mine, ca)
+					f.vc.matchedAsserts[ca] = true
 				}
 			}
 		}
